@@ -97,7 +97,7 @@ func (u *Up) serve(uc *UpConn) {
 			u.MaxUID = a.UID
 		}
 		u.Last = uc
-		u.emit(map[string]interface{}{"ev": "urecv", "tok": a.Tok, "uid": a.UID})
+		u.emit(map[string]interface{}{"ev": "urecv", "tok": a.Tok, "uid": a.UID, "htok": f.Get("token")})
 		u.mu.Unlock()
 		if f.Type == 2 {
 			continue
@@ -234,15 +234,18 @@ type Reply struct {
 
 // Client is one downstream connection carrying any number of outstanding requests.
 type Client struct {
-	Name   string
-	c      net.Conn
-	emit   Emit
-	wmu    sync.Mutex
-	mu     sync.Mutex
-	cond   *sync.Cond
-	out    map[uint32]chan Reply // outstanding ids
-	Frames int
-	dead   bool
+	Name string
+	// Service is the value of the routing header ("c02": forwarded as is; "c02x": the route adds headers both ways,
+	// so the proxy re-encodes request and response from their fields)
+	Service string
+	c       net.Conn
+	emit    Emit
+	wmu     sync.Mutex
+	mu      sync.Mutex
+	cond    *sync.Cond
+	out     map[uint32]chan Reply // outstanding ids
+	Frames  int
+	dead    bool
 }
 
 // Dial opens a downstream connection to the proxy and starts its reader.
@@ -304,12 +307,19 @@ func (cl *Client) Send(id uint32, tok, beh string, timeoutMs int32, short, probe
 	cl.emit(map[string]interface{}{"ev": "csend", "conn": cl.Name, "dsid": id, "tok": tok, "short": short, "probe": probe})
 	cl.mu.Unlock()
 	f := &Frame{Type: 1, Cmd: 1, ID: id, Timeout: timeoutMs, Class: "com.alipay.sofa.rpc.core.request.SofaRequest",
-		Header: [][2]string{{"service", "c02"}, {"beh", beh}, {"token", tok}}, Content: []byte(tok)}
+		Header: [][2]string{{"service", cl.service()}, {"beh", beh}, {"token", tok}}, Content: []byte(tok)}
 	cl.wmu.Lock()
 	cl.c.SetWriteDeadline(time.Now().Add(10 * time.Second))
 	cl.c.Write(f.Encode())
 	cl.wmu.Unlock()
 	return ch
+}
+
+func (cl *Client) service() string {
+	if cl.Service == "" {
+		return "c02"
+	}
+	return cl.Service
 }
 
 // Close closes the connection.
